@@ -232,15 +232,23 @@ theorem scalar_eval_subst (env ρ : Env V) (σ : Subst) (h : Pulls env ρ σ) (s
   | lit q => rfl
   | sym e => exact eval_subst_gen env ρ σ h e
 
+theorem scalars_eval_subst (env ρ : Env V) (σ : Subst) (h : Pulls env ρ σ) (xs : List Scalar) :
+    (xs.map (Scalar.subst σ)).mapM (Scalar.eval env) = xs.mapM (Scalar.eval ρ) := by
+  induction xs with
+  | nil => rfl
+  | cons a l ih => simp [List.mapM_cons, scalar_eval_subst env ρ σ h, ih]
+
 theorem param_eval_subst (env ρ : Env V) (σ : Subst) (h : Pulls env ρ σ) (p : Param) :
     (p.subst σ).eval env = p.eval ρ := by
   cases p with
   | one s => simp [Param.subst, Param.eval, scalar_eval_subst env ρ σ h]
-  | arr xs =>
-    have : (xs.map (Scalar.subst σ)).mapM (Scalar.eval env) = xs.mapM (Scalar.eval ρ) := by
-      induction xs with
+  | arr xs => simp [Param.subst, Param.eval, scalars_eval_subst env ρ σ h]
+  | arr2 xss =>
+    have : (xss.map fun xs => xs.map (Scalar.subst σ)).mapM (fun xs => xs.mapM (Scalar.eval env))
+        = xss.mapM (fun xs => xs.mapM (Scalar.eval ρ)) := by
+      induction xss with
       | nil => rfl
-      | cons a l ih => simp [List.mapM_cons, scalar_eval_subst env ρ σ h, ih]
+      | cons a l ih => simp [List.mapM_cons, scalars_eval_subst env ρ σ h, ih]
     simp [Param.subst, Param.eval, this]
 
 theorem scalar_eval_congr (env₁ env₂ : Env V) (s : Scalar)
@@ -250,19 +258,32 @@ theorem scalar_eval_congr (env₁ env₂ : Env V) (s : Scalar)
   | lit q => rfl
   | sym e => exact eval_congr env₁ env₂ e hm (fun n _ => by rw [hf])
 
+theorem scalars_eval_congr (env₁ env₂ : Env V) (xs : List Scalar)
+    (hm : ∀ m ∈ xs.flatMap Scalar.deps, env₁.meas m = env₂.meas m) (hf : env₁.free = env₂.free) :
+    xs.mapM (Scalar.eval env₁) = xs.mapM (Scalar.eval env₂) := by
+  induction xs with
+  | nil => rfl
+  | cons a l ih =>
+    simp only [List.flatMap_cons, List.mem_append] at hm
+    have h1 := scalar_eval_congr env₁ env₂ a (fun m h => hm m (.inl h)) hf
+    have h2 := ih (fun m h => hm m (.inr h))
+    simp [List.mapM_cons, h1, h2]
+
 theorem param_eval_congr (env₁ env₂ : Env V) (p : Param)
     (hm : ∀ m ∈ p.deps, env₁.meas m = env₂.meas m) (hf : env₁.free = env₂.free) :
     p.eval env₁ = p.eval env₂ := by
   cases p with
   | one s => simp [Param.eval, scalar_eval_congr env₁ env₂ s hm hf]
-  | arr xs =>
-    have : xs.mapM (Scalar.eval env₁) = xs.mapM (Scalar.eval env₂) := by
-      induction xs with
+  | arr xs => simp [Param.eval, scalars_eval_congr env₁ env₂ xs hm hf]
+  | arr2 xss =>
+    have : xss.mapM (fun xs => xs.mapM (Scalar.eval env₁)) = xss.mapM (fun xs => xs.mapM (Scalar.eval env₂)) := by
+      simp only [Param.deps] at hm
+      induction xss with
       | nil => rfl
       | cons a l ih =>
-        simp only [Param.deps, List.flatMap_cons, List.mem_append] at hm
-        have h1 := scalar_eval_congr env₁ env₂ a (fun m h => hm m (.inl h)) hf
-        have h2 := ih (fun m h => hm m (.inr (by simpa [Param.deps] using h)))
+        simp only [List.flatMap_cons, List.mem_append] at hm
+        have h1 := scalars_eval_congr env₁ env₂ a (fun m h => hm m (.inl h)) hf
+        have h2 := ih (fun m h => hm m (.inr h))
         simp [List.mapM_cons, h1, h2]
     simp [Param.eval, this]
 
@@ -272,6 +293,20 @@ theorem scalar_nonsymbolic (env : Env V) (s : Scalar) (h : s.isSymbolic = false)
   | lit q => exact ⟨q, rfl, rfl⟩
   | sym e => simp [Scalar.isSymbolic] at h
 
+/-- the value a list of non-symbolic scalars evaluates to -/
+def litVals (xs : List Scalar) : List V := xs.map fun s => match s with
+  | .lit q => ValOps.ofRat q | .sym _ => ValOps.ofRat 0
+
+theorem scalars_nonsymbolic (env : Env V) (xs : List Scalar) (h : ∀ x ∈ xs, x.isSymbolic = false) :
+    xs.mapM (Scalar.eval env) = .ok (litVals xs) := by
+  induction xs with
+  | nil => rfl
+  | cons a l ih =>
+    obtain ⟨q, rfl, _⟩ := scalar_nonsymbolic env a (h a (by simp))
+    have := ih (fun x hx => h x (by simp [hx]))
+    simp [List.mapM_cons, Scalar.eval, this, litVals]
+    rfl
+
 theorem param_nonsymbolic (env₁ env₂ : Env V) (p : Param) (h : p.isSymbolic = false) :
     p.eval env₁ = p.eval env₂ ∧ ∃ v, p.eval env₁ = .ok v := by
   cases p with
@@ -280,18 +315,74 @@ theorem param_nonsymbolic (env₁ env₂ : Env V) (p : Param) (h : p.isSymbolic 
     exact ⟨rfl, _, rfl⟩
   | arr xs =>
     simp only [Param.isSymbolic, List.any_eq_false] at h
-    have : ∀ env : Env V, xs.mapM (Scalar.eval env) = .ok (xs.map fun s => match s with
-        | .lit q => ValOps.ofRat q | .sym _ => ValOps.ofRat 0) := by
+    have h' : ∀ x ∈ xs, x.isSymbolic = false := fun x hx => by simpa using h x hx
+    have := fun env : Env V => scalars_nonsymbolic env xs h'
+    exact ⟨by simp [Param.eval, this], _, by simp [Param.eval, this]; rfl⟩
+  | arr2 xss =>
+    simp only [Param.isSymbolic, List.any_eq_false] at h
+    have : ∀ env : Env V, xss.mapM (fun xs => xs.mapM (Scalar.eval env)) = .ok (xss.map litVals) := by
       intro env
-      induction xs with
+      induction xss with
       | nil => rfl
       | cons a l ih =>
-        have ha : a.isSymbolic = false := by simpa using h a (by simp)
-        obtain ⟨q, rfl, _⟩ := scalar_nonsymbolic env a ha
+        have ha : ∀ x ∈ a, x.isSymbolic = false := fun x hx => by
+          have := h a (by simp)
+          simp only [List.any_eq_true, not_exists, not_and] at this
+          simpa using this x hx
         have := ih (fun x hx => h x (by simp [hx]))
-        simp [List.mapM_cons, Scalar.eval, this]
+        simp [List.mapM_cons, scalars_nonsymbolic env a ha, this]
         rfl
     exact ⟨by simp [Param.eval, this], _, by simp [Param.eval, this]; rfl⟩
+
+/-! ### par_convert -/
+
+theorem toOption_bind2 {α β γ : Type} (a : Except PErr α) (b : Except PErr β) (f : α → β → γ) :
+    (do let x ← a; let y ← b; pure (f x y) : Except PErr γ).toOption =
+      (do let x ← a.toOption; let y ← b.toOption; pure (f x y)) := by
+  cases a <;> cases b <;> rfl
+
+theorem toOption_bind1 {α γ : Type} (a : Except PErr α) (f : α → γ) :
+    (do let x ← a; pure (f x) : Except PErr γ).toOption = (do let x ← a.toOption; pure (f x)) := by
+  cases a <;> rfl
+
+/-- the converted expression has the value the Blackbird expression has when `q<i>` stands for the
+outcome of subsystem `i` and every other symbol for the free parameter of that name (and fails
+exactly when that one fails) -/
+theorem eval_convert (env : Env V) (e e' : Expr) (h : convert e = some e') :
+    (eval env e').toOption = (eval env.blackbird e).toOption := by
+  induction e generalizing e' with
+  | num q => simp [convert] at h; subst h; rfl
+  | free n =>
+    simp only [convert] at h
+    cases e' with
+    | meas m => simp only [eval, Env.blackbird, h]; cases env.meas m <;> rfl
+    | free k => simp only [eval, Env.blackbird, h]; cases env.free k <;> rfl
+    | _ =>
+      exfalso
+      unfold atomOfName at h
+      cases hc : classify n.toList <;> simp [hc] at h
+  | meas m => simp [convert] at h; subst h; rfl
+  | add a b iha ihb | mul a b iha ihb | pow a b iha ihb | fn2 f a b iha ihb =>
+    simp only [convert] at h
+    cases ha : convert a with
+    | none => simp [ha] at h
+    | some x =>
+      cases hb : convert b with
+      | none => simp [ha, hb] at h
+      | some y =>
+        simp [ha, hb] at h
+        subst h
+        simp only [eval]
+        rw [toOption_bind2, toOption_bind2, iha x ha, ihb y hb]
+  | neg a iha | fn1 f a iha =>
+    simp only [convert] at h
+    cases ha : convert a with
+    | none => simp [ha] at h
+    | some x =>
+      simp [ha] at h
+      subst h
+      simp only [eval]
+      rw [toOption_bind1, toOption_bind1, iha x ha]
 
 /-! ### holes -/
 
@@ -444,5 +535,57 @@ theorem runSegs_fresh (free : String → Option V) (own : Regs V) (cmds : List (
   cases hf : (runCmds free own cmds).fin with
   | error err => simp [hf]
   | ok r => simp [hf, runSegs_started free ⟨true, r⟩ rfl]
+
+/-! ### calls -/
+
+theorem runCall_fst (free : String → Option V) (e : Eng V) (segs : List (Regs V × List (Cmd V))) :
+    (runCall free e segs).1 = runSegs free e segs := by
+  induction segs generalizing e with
+  | nil => rfl
+  | cons s rest ih =>
+    obtain ⟨own, cmds⟩ := s
+    simp only [runCall, runSegs]
+    cases hf : (runSeg free e own cmds).1.fin with
+    | error err => simp [hf]
+    | ok r => simp [hf, ih]
+
+/-- after a successful call the engine holds the final register -/
+theorem runCall_vals (free : String → Option V) (e : Eng V) (segs : List (Regs V × List (Cmd V))) (r : Regs V)
+    (h : (runCall free e segs).1.fin = .ok r) : (runCall free e segs).2.vals = r := by
+  induction segs generalizing e with
+  | nil => simp [runCall] at h ⊢; exact h
+  | cons s rest ih =>
+    obtain ⟨own, cmds⟩ := s
+    simp only [runCall] at h ⊢
+    cases hf : (runSeg free e own cmds).1.fin with
+    | error err => simp [hf] at h
+    | ok r' =>
+      simp only [hf] at h ⊢
+      exact ih _ h
+
+theorem runCall_append (free : String → Option V) (e : Eng V) (a b : List (Regs V × List (Cmd V))) :
+    runCall free e (a ++ b) =
+      (match (runCall free e a).1.fin with
+       | .ok _ =>
+         (⟨(runCall free e a).1.trace ++ (runCall free (runCall free e a).2 b).1.trace,
+           (runCall free (runCall free e a).2 b).1.fin⟩, (runCall free (runCall free e a).2 b).2)
+       | .error err => (⟨(runCall free e a).1.trace, .error err⟩, (runCall free e a).2)) := by
+  induction a generalizing e with
+  | nil => simp [runCall]
+  | cons s rest ih =>
+    obtain ⟨own, cmds⟩ := s
+    simp only [List.cons_append, runCall]
+    cases hf : (runSeg free e own cmds).1.fin with
+    | error err => simp
+    | ok r =>
+      simp only [ih]
+      cases (runCall free (runSeg free e own cmds).2 rest).1.fin <;> simp
+
+/-- a failing segment leaves the engine as it was before the segment -/
+theorem runSeg_error (free : String → Option V) (e : Eng V) (own : Regs V) (cmds : List (Cmd V)) (err : PErr)
+    (h : (runSeg free e own cmds).1.fin = .error err) : (runSeg free e own cmds).2 = e := by
+  unfold runSeg at h ⊢
+  simp only at h ⊢
+  split <;> simp_all
 
 end SFV.Param
